@@ -99,7 +99,7 @@ def schema_shape(s, view):
 def oracle(c, ob, rng):
     msgs = []
     if c['kind'] == 'live':
-        return live.oracle(c, ob, rng)
+        return live.oracle_raised(c, ob, rng) + live.oracle(c, ob, rng)
     if c['kind'] == 'structview':
         for i, v in enumerate(ob['views']):
             if 'err' in v:
@@ -172,7 +172,8 @@ def run(cases, tier='quick', seed=0):
     class Live:
         __name__ = 'harness.live'
         IMPORTS, CHECK_FN, BAD_TERM = live.IMPORTS, live.CHECK_FN, live.BAD_TERM
-        run_impl, oracle, render = staticmethod(live.run_impl), staticmethod(live.oracle), staticmethod(live.render)
+        run_impl, render = staticmethod(live.run_impl), staticmethod(live.render)
+        oracle = staticmethod(lambda c, ob, rng: live.oracle_raised(c, ob, rng) + live.oracle(c, ob, rng))
         nontrivial, stat_key = staticmethod(live.nontrivial), staticmethod(live.stat_key)
     return common.merge_streams(cases, [
         (lambda c: c['kind'] != 'live', lambda cs: common.generic_run(me, cs, seed, shard=60)),
